@@ -375,6 +375,7 @@ fn drive_fed<T>(fut: impl Future<Output = T>, mut feed: impl FnMut() -> bool) ->
     let mut cx = Context::from_waker(&waker);
     let _ = sim_core::take_last_panic();
     for _ in 0..2_000_000u64 {
+        sim_core::heartbeat();
         let before = cw.0.load(Ordering::SeqCst);
         match catch_unwind(AssertUnwindSafe(|| fut.as_mut().poll(&mut cx))) {
             Err(_) => {
